@@ -160,6 +160,17 @@ def run_case(spec, ctx):
     al = ctx.call(model.ppf, y[:5], v[:5])
     ctx.check(al[0] and np.array_equal(np.asarray(al[1]), np.asarray(model.percent_point(y[:5], v[:5])),
                                        equal_nan=True), 'ppf.alias', 'C08:alias-differs', where)
+    # instance reuse: same (y, v) asked again after the instance was re-parameterised by assignment -------------
+    reused, th0 = biv.reused_model(fam, th, rng)
+    ok0, _ = ctx.call(reused.percent_point, y[:20], v[:20])         # fills whatever is cached per (y, v) at theta
+    reused.theta, reused.tau = float(th0), float(arch.Arch(fam, th0).tau())
+    ok1, _ = ctx.call(reused.percent_point, y[:20], v[:20])
+    reused.theta, reused.tau = float(th), float(arch.Arch(fam, th).tau())
+    ok_r, a = ctx.call(reused.percent_point, y[:20], v[:20])
+    ok_f, b = ctx.call(biv.make_model(fam, th).percent_point, y[:20], v[:20])
+    if ok_r and ok_f:
+        ctx.check((biv.ulps(a, b) <= 8).all(), 'instance-reuse', 'C08:ppf-depends-on-instance-history',
+                  lambda: dict(where, previous_theta=th0, worst_ulps=float(np.max(biv.ulps(a, b)))))
     ctx.sample({'family': fam, 'theta': th, 'elements': int(len(y))})
 
 
